@@ -663,6 +663,8 @@ def decode_avr(prog, idx, mn, ops, ln):
     if mn in ("ld", "ldd"):
         d = reg(ops[0])
         b, q = ptr(ops[1])
+        if ("+" in ops[1]) != (mn == "ldd"):
+            raise Violation("not-encodable", "line %d: %s %s (ld takes a bare pointer, ldd a displacement)" % (ln, mn, ops[1]))
 
         def f(c):
             c.r[d] = c.mem.load((c.r[b] | (c.r[b + 1] << 8)) + q, 1)
@@ -670,6 +672,8 @@ def decode_avr(prog, idx, mn, ops, ln):
     if mn in ("st", "std"):
         b, q = ptr(ops[0])
         s = reg(ops[1])
+        if ("+" in ops[0]) != (mn == "std"):
+            raise Violation("not-encodable", "line %d: %s %s (st takes a bare pointer, std a displacement)" % (ln, mn, ops[0]))
 
         def f(c):
             c.mem.store((c.r[b] | (c.r[b + 1] << 8)) + q, 1, c.r[s])
